@@ -31,7 +31,19 @@ Definition rout_eqb (a b : rout) : bool :=
   end.
 
 (* ---------- direct Partition() calls ---------- *)
-Record pcall := { pc_key : key; pc_mpart : Z; pc_n : Z; pc_obs : pout }.
+(* pc_hcalls: the calls observed on the partitioner's own hasher during this call (None: the hasher is the built-in
+   FNV-1a instance and cannot be observed) *)
+Record pcall := { pc_key : key; pc_mpart : Z; pc_n : Z; pc_obs : pout; pc_hcalls : option (list hcall) }.
+
+Definition hcall_eqb (a b : hcall) : bool :=
+  match a, b with
+  | HReset, HReset => true
+  | HWrite x, HWrite y => list_eqb Z.eqb x y
+  | _, _ => false
+  end.
+(* the calls the model expects on the top-level partitioner's hasher: none when the call is served by a fallback *)
+Definition expected_hcalls (p : partitioner) (m : msg) : list hcall :=
+  match p with PHash _ => hasher_calls m | _ => [] end.
 Record pcase := { pp_p : partitioner; pp_calls : list pcall }.
 
 Definition oracle_of (o : pout) : Z := match o with Chose x => x | _ => 0 end.
@@ -44,7 +56,9 @@ Fixpoint run_calls (p : partitioner) (cs : list pcall) : bool :=
     let r := oracle_of (pc_obs c) in
     let '(o, p') := partition p m (pc_n c) r in
     let depends := negb (pout_eqb (fst (partition p m (pc_n c) (-1))) (fst (partition p m (pc_n c) (-2)))) in
-    pout_eqb o (pc_obs c) && (negb depends || ((0 <=? r) && (r <? pc_n c))) && run_calls p' rest
+    pout_eqb o (pc_obs c) && (negb depends || ((0 <=? r) && (r <? pc_n c))) &&
+    match pc_hcalls c with Some l => list_eqb hcall_eqb (expected_hcalls p m) l | None => true end &&
+    run_calls p' rest
   end.
 Definition ok_p (c : pcase) : bool := run_calls (pp_p c) (pp_calls c).
 Definition mismatches_p := mismatches ok_p.
